@@ -34,6 +34,21 @@ CLAIMED = {
             "Trusted: the reference predicate lib/blocks.py (my reading of the property statement), symx, z3. Orders are enumerated, not "
             "solved: quick 700 + 43 curated orders of <=3 units, thorough 12000 of <=4 units (fraction of the product reported).",
             "symbolic execution of the real decoder (symx) vs reference predicate, z3 equivalence per path", "3 C01"),
+    "C10": (MC,
+            "Self-composition on the real decoder: sequences (block orders covering both profiles, versions 1-3, levels 0/1/66, pictures vs "
+            "fragments, fields, and individually non-conformant members) are concatenated, one member with all structural fields symbolic; "
+            "inside one path the decoder runs on the concatenation and on every part, and z3 proves verdict(concatenation) = conjunction of "
+            "the parts, same exception class, and that the output pictures (numbers and samples) concatenate.",
+            "Trusted: symx, z3, fixtures. Bound: pairs (quick) and triples (thorough) of 16 sequences; payloads concrete.",
+            "symbolic execution of the real decoder (symx), self-composition, z3 per path", "3 C10"),
+    "C06": (MC,
+            "Symbolic execution of the real Deserialiser and Serialiser: byte regions of committed fixtures (parse code + next_parse_offset of "
+            "every unit, header windows, transform parameters, slice qindex/length/payload bytes) are symbolic; on every path that parses to "
+            "completion the description is serialised onto a symbolic file and z3 proves every output byte equal to the input byte; the "
+            "output is deserialised again and compared structurally. Serialisation raising is a violation.",
+            "Trusted: symx, z3, SymFile, list-based bytearray/bitarray stand-ins, serdes resource bounds (out-of-scope paths counted). "
+            "Bound: symbolic regions of 1-5 bytes on 12 (quick) / 23 (thorough) fixtures.",
+            "symbolic execution of the real (de)serialiser (symx) over symbolic byte regions, z3 byte equality per path", "3 C06"),
     "C20": (MC,
             "Symbolic execution of the real BitstreamReader/BitstreamWriter and of the decoder's read_* functions on the same buffer of "
             "symbolic bits: per path (one per exp-Golomb length class / end-of-file point / block length) z3 proves equal values, equal tell(), "
